@@ -429,6 +429,30 @@ def run_case(case, ctx):
                    expected=worst_at['expected'], detail=dict(worst_at, diff=getattr(diff, '__name__', '?'),
                                                               qclass=qclass))
         return
+    # ---- (b'') the same at a matrix of points that is not C-contiguous (Fortran order, a transposed view): the quotients inherit the
+    # layout of x, the rule is applied element by element all the same
+    if order <= 4 and n <= 4 and T <= 3 and float(ratio) in (2.0, 3.0, 1.6):
+        xm = np.array([[0.1, -0.2, 0.3], [0.4, 0.5, -0.6]])
+        for xl, lname in ((np.asfortranarray(xm), 'fortran'), (np.ascontiguousarray(xm.T).T, 'transposed_view')):
+            d_ = n + 1
+            fact_ = float(math.factorial(d_))
+
+            def mono1(t):
+                return t ** d_ / fact_
+            try:
+                seq_m = [diff(mono1, mono1(xl), xl, h_) for h_ in hs]
+                der_m, _hm, _ = rule_obj.apply(seq_m, [np.full(xl.shape, float(h_)) for h_ in hs], ratio)
+                der_m = np.asarray(der_m)
+                ctx.count('non_contiguous_points_asserted')
+                # the n-th derivative of t^(n+1)/(n+1)! is t: the first estimate (largest steps) is exact below the truncation order
+                if method_order >= 2 or method in ('central', 'complex'):
+                    got_m = der_m[-1].reshape(xm.shape) if der_m.ndim >= 2 else der_m.reshape(xm.shape)
+                    if not np.all(np.abs(got_m - xm) <= 1e-6):
+                        ctx.reject('difference_quotient_through_rule_not_exact', observed=got_m, expected=xm,
+                                   detail=dict(layout=lname, degree=d_, note='values land on other elements'))
+                        return
+            except Exception as exc:
+                ctx.count('non_contiguous_points_raised:%s' % type(exc).__name__)
     # ---- (b') the same with integer-typed data: an integer point, integral steps (integral ratio) and a polynomial with integer
     # coefficients give difference quotients of integer dtype for the one-sided rules; the rule applied to them is the same rule
     if method in ('forward', 'backward') and float(ratio).is_integer() and n + method_order <= 6 and T <= 4:
